@@ -85,8 +85,14 @@ fn write_blob_atomic(workspace_root: &Path, artifact_id: &str, bytes: &[u8]) -> 
 
     let path = dir.join(artifact_id);
     let tmp = dir.join(format!("{artifact_id}.tmp"));
+    #[cfg(rip_verif)]
+    rip_kernel::verif::point("art.before_tmp");
     fs::write(&tmp, bytes).map_err(|err| format!("artifact write failed: {err}"))?;
+    #[cfg(rip_verif)]
+    rip_kernel::verif::point("art.tmp_written");
     fs::rename(&tmp, &path).map_err(|err| format!("artifact finalize failed: {err}"))?;
+    #[cfg(rip_verif)]
+    rip_kernel::verif::point("art.renamed");
     Ok(())
 }
 
